@@ -194,6 +194,57 @@ func conservation(stream []common.AccessLog, rr runResult, attribute bool) strin
 		if mn != all.min || mx != all.max {
 			return fmt.Sprintf("MINMAX-TOTAL after restart: overall min/max %d/%d, extreme timestamps %d/%d", mn, mx, all.min, all.max)
 		}
+		// the same totals per consumer (the per-consumer view is persisted and read back too)
+		perCons := map[string]*stats{}
+		for _, r := range stream {
+			c := r.ConsumerTag
+			if c == "" {
+				c = discovery.UnknownConsumerTag
+			}
+			if perCons[c] == nil {
+				perCons[c] = &stats{}
+			}
+			perCons[c].add(r)
+		}
+		for c, m := range rr.agg.Consumers {
+			want := perCons[c]
+			if want == nil {
+				return fmt.Sprintf("PHANTOM after restart: consumer %q has aggregates but no record", c)
+			}
+			cst := map[int]int{}
+			cmn, cmx, cn := int64(math.MaxInt64), int64(0), 0
+			for e, a := range m {
+				if a.MinTime > a.MaxTime {
+					return fmt.Sprintf("MINMAX after restart: consumer %q endpoint %v has min %d > max %d", c, e, a.MinTime, a.MaxTime)
+				}
+				cn += int(a.Count)
+				for st, k := range a.StatusCodes {
+					cst[st] += int(k)
+				}
+				if a.MinTime < cmn {
+					cmn = a.MinTime
+				}
+				if a.MaxTime > cmx {
+					cmx = a.MaxTime
+				}
+			}
+			if cn != want.count {
+				return fmt.Sprintf("COUNT-TOTAL after restart: consumer %q counts sum to %d, records %d", c, cn, want.count)
+			}
+			for st, k := range want.status {
+				if cst[st] != k {
+					return fmt.Sprintf("STATUS-TOTAL after restart: consumer %q status %d counted %d times, records %d", c, st, cst[st], k)
+				}
+			}
+			if cmn != want.min || cmx != want.max {
+				return fmt.Sprintf("MINMAX-TOTAL after restart: consumer %q min/max %d/%d, extreme timestamps %d/%d", c, cmn, cmx, want.min, want.max)
+			}
+		}
+		for e, a := range rr.agg.Endpoints {
+			if a.MinTime > a.MaxTime {
+				return fmt.Sprintf("MINMAX after restart: endpoint %v has min %d > max %d", e, a.MinTime, a.MaxTime)
+			}
+		}
 		return ""
 	}
 	byEp := map[sharedDiscovery.Endpoint]*stats{}
